@@ -128,7 +128,9 @@ def run_impl(b, op, data):
     if rs == "all":
         kw["return_states"] = "all"
     elif rs == "subset":
-        kw["return_states"] = subset
+        # the selection is a sequence of names: a list, a tuple or any other iterable of strings
+        how = g.choice(["list", "list", "tuple", "dict_keys"])
+        kw["return_states"] = subset if how == "list" else tuple(subset) if how == "tuple" else dict.fromkeys(subset).keys()
     if op["op"] == "call":
         out = m.call(X, **kw)
     else:
